@@ -631,6 +631,12 @@ impl CpcSketch {
             )));
         }
 
+        // The image of an empty sketch carries no HIP registers: they are those of a new sketch.
+        if num_coupons == 0 {
+            kxp = (1u64 << lg_k) as f64;
+            hip_est_accum = 0.0;
+        }
+
         // C < (27/8 + 56) K: beyond it the window offset would exceed 56
         if ((num_coupons as u64) << 3) >= 475 * (1u64 << lg_k) {
             return Err(Error::new(
